@@ -130,6 +130,15 @@ func TestBoundedC12Auth(t *testing.T) {
 							req := httptest.NewRequest(m, "http://"+defaultListenAddress+path(hr, hw), nil)
 							req.RemoteAddr = "127.0.0.1:50000"
 							decorate(req)
+							// a CORS preflight header on a request that is not a preflight says nothing about
+							// the request itself: it names the other method class on a part of the requests
+							if cases%3 == 0 {
+								other := http.MethodGet
+								if reading {
+									other = http.MethodPost
+								}
+								req.Header.Set("Access-Control-Request-Method", other)
+							}
 							rec := httptest.NewRecorder()
 							before := atomic.LoadInt64(&calls)
 							desc := fmt.Sprintf("source=%s granted(read=%d,write=%d) handler(read=%d,write=%d) %s", src.name, grantR, grantW, hr, hw, m)
@@ -181,7 +190,7 @@ func TestBoundedC12Auth(t *testing.T) {
 	if invoked == 0 {
 		fail("vacuous harness: no handler was ever invoked")
 	}
-	fmt.Printf("BOUNDED name=C12/auth-matrix cases=%d distinct=%d bound=%d credential sources (authenticator, session cookie live / expired / unknown, API key Bearer / Basic / expired / unknown-short-malformed) x 9 x 9 granted read/write permissions (incl. not-found, dynamic, not-supported, out-of-range) x 9 x 9 handler requirements x 5 methods through the real mainHandler; checked: a handler runs only with a valid requirement and a valid, sufficient granted permission for the method class, every refusal is 401/403/404/405/500, nothing panics (%d requests reached a handler)\n",
+	fmt.Printf("BOUNDED name=C12/auth-matrix cases=%d distinct=%d bound=%d credential sources (authenticator, session cookie live / expired / unknown, API key Bearer / Basic / expired / unknown-short-malformed) x 9 x 9 granted read/write permissions (incl. not-found, dynamic, not-supported, out-of-range) x 9 x 9 handler requirements x 5 methods (every third request also carries an Access-Control-Request-Method header naming the other method class) through the real mainHandler; checked: a handler runs only with a valid requirement and a valid, sufficient granted permission for the method class, every refusal is 401/403/404/405/500, nothing panics (%d requests reached a handler)\n",
 		cases, cases, len(sources), invoked)
 	if fails > 0 {
 		t.Fatalf("%d of %d cases fail", fails, cases)
